@@ -478,6 +478,48 @@ Definition phase_split_hist (n : nat) (present : list bool) (rows : list vec) (o
 Definition pairvl_approxb (a b : res (list vec * list vec)) : bool :=
   res_eqb (fun x y => list_eqb vapproxb (fst x) (fst y) && list_eqb vapproxb (snd x) (snd y)) a b.
 
+(* contract of the equilibrium call checked on every real (not stubbed) VLE call of the correspondence:
+   the rows add up to the feed and none is negative (absolute slack 1e-9 for rounding) *)
+Definition nonneg_tolb (v : vec) : bool := forallb (fun x => qleb (- (1 # 1000000000)) x) v.
+Definition eq_contract_okb (feed a b : vec) : bool := vapproxb (vadd a b) feed && nonneg_tolb a && nonneg_tolb b.
+
+(* ---------- mix_and_split with a MultiStream top outlet ----------
+   Stream.mix_from on a MultiStream receiver: empty inlets are dropped; MaterialIndexer.mix_from (or copy_like for a
+   single inlet) puts every inlet into the row of its phase.  A phase the receiver lacks but whose other-case twin it
+   owns ('L' into ('g','l')) is an alias of that twin; if some inlet phase is neither owned nor aliased the receiver's
+   phase set grows by ALL inlet phases.  Inlets of another property package contribute the same flows (matched by
+   chemical).  MultiStream.split_to then splits phase by phase into the top itself and the bottom, which takes the
+   same phases.  Phases are coded as in [mstate]; rows are kept for all four codes (absent phases: zero rows). *)
+Definition in_indexer (present : list bool) (p : nat) : bool :=
+  nthb present p || match swap_case p with Some q => nthb present q | None => false end.
+
+Definition inlet_nonempty (i : nat * vec) : bool := existsb (fun x => negb (qzerob x)) (snd i).
+
+Definition grow_phases (present : list bool) (inl : list (nat * vec)) : list bool :=
+  if existsb (fun i => negb (in_indexer present (fst i))) inl
+  then map (fun p => nthb present p || existsb (fun i => Nat.eqb (fst i) p) inl) all_phases
+  else present.
+
+Definition row_of (phases : list bool) (p : nat) : nat :=
+  if nthb phases p then p else match swap_case p with Some q => q | None => p end.
+
+Fixpoint mix_rows (phases : list bool) (inl : list (nat * vec)) (acc : list vec) : list vec :=
+  match inl with
+  | [] => acc
+  | (p, v) :: t => let r := row_of phases p in mix_rows phases t (upd acc r (vadd (nthv acc r) v))
+  end.
+
+Record xsplit := mkX { x_phases : list bool; x_top : list vec; x_bot : list vec }.
+
+Definition mix_and_split_multi (n : nat) (present : list bool) (inl : list (nat * vec)) (split : vec) : xsplit :=
+  let ne := filter inlet_nonempty inl in
+  let phases := grow_phases present ne in
+  let mixed := mix_rows phases ne (repeat (vzero n) 4) in
+  mkX phases (map (fun r => fst (split_to r split)) mixed) (map (fun r => snd (split_to r split)) mixed).
+
+Definition xsplit_eqb (x : xsplit) (phases : list bool) (top bot : list vec) : bool :=
+  blist_eqb (x_phases x) phases && list_eqb vapproxb (x_top x) top && list_eqb vapproxb (x_bot x) bot.
+
 (* stub property package: rho = (sum n_i MW_i) / (sum n_i MW_i / rho_i) *)
 Definition rho_stub (mws vms : vec) (row : vec) : option Q :=
   if qzerob (qsum row) then None else Some (vdot row mws / vdot row vms).
